@@ -484,11 +484,17 @@ class Recorder:
             dof = np.asarray(ms.degrees_of_freedom, dtype=float)
             ok = bool(np.all(np.isfinite(means)) and np.all(np.isfinite(covs)) and np.all(np.isfinite(dof)) and np.all(dof > 0))
             if ok:
-                for c in covs:
+                for j, c in enumerate(covs):
                     if not np.allclose(c, c.T, rtol=1e-10, atol=1e-300):
                         ok = False
                         break
                     if np.linalg.eigvalsh((c + c.T) / 2).min() <= 0:
+                        ok = False
+                        break
+                    # the factor the kernels draw noise with and the inverse used by the Student-t correction belong to
+                    # this same scale matrix (checked relative to the matrix' own magnitude / conditioning)
+                    L = np.asarray(ms.chol_covariances)[j]
+                    if np.max(np.abs(L @ L.T - c)) > 1e-9 * np.max(np.abs(c)):
                         ok = False
                         break
             return ok
